@@ -209,8 +209,13 @@ func CheckC18(run *evid.Run) {
 					}
 				}
 			}
-			// no key / other key
-			for name, rio := range map[string]iface.IO{"no-key": none, "other-key": other} {
+			// no key / other key; "no key" also as a codec DERIVED FROM A KEYED ONE with options that carry no key
+			readers := map[string]iface.IO{"no-key": none, "other-key": other}
+			if kc, ok := same.(*cbor.IOCbor); ok {
+				readers["no-key (derived from the keyed codec, empty options)"] = kc.ApplyOptions(&cbor.Options{})
+				readers["no-key (derived from the keyed codec, nil key)"] = kc.ApplyOptions(&cbor.Options{LinkKey: nil})
+			}
+			for name, rio := range readers {
 				d, err := rio.DecodeRawEntry(node, e.Hash, provider)
 				if err != nil {
 					run.Count("reader_"+name+"_error", 1)
@@ -371,6 +376,36 @@ func CheckC18(run *evid.Run) {
 				run.Violate("C18/same-key-merge", det(), histSample(h), "same-key reader cannot merge the loaded log of r%d: err=%v, %d of %d entries", r, err, fresh.Len(), l.Len())
 			}
 			run.Count("logs_loaded_and_merged_with_same_key", 1)
+			// a same-key reader that starts from head OBJECTS it obtained without the key (e.g. decoded by a key-less
+			// component and handed over) still recovers the links of every entry from the blocks
+			if hds := l.Heads().Slice(); len(hds) > 0 && loaded.Len() >= 2 {
+				var blind []iface.IPFSLogEntry
+				for _, hd := range hds {
+					if be, err := entry.FromMultihashWithIO(x.W.Ctx, x.W.Store.API(), hd.GetHash(), provider, none); err == nil && be != nil {
+						blind = append(blind, be)
+					}
+				}
+				if len(blind) == len(hds) {
+					lo5 := w2.LogOpts(w2.LogID)
+					lo5.IO = same
+					fe, err := ipfslog.NewFromEntry(x.W.Ctx, x.W.Store.API(), x.W.Idents[0], blind, lo5, &entry.FetchOptions{})
+					run.Count("same_key_loads_from_head_objects_decoded_without_the_key", 1)
+					if err != nil || fe == nil || fe.Len() != l.Len() {
+						run.Violate("C18/same-key-load", det("loader", "head entries decoded without the key"), histSample(h), "same-key reader starting from key-less head objects loaded %v of %d entries of r%d (err %v)", fe != nil, l.Len(), r, err)
+					} else {
+						want := map[string]iface.IPFSLogEntry{}
+						for _, e := range l.GetEntries().Slice() {
+							want[e.GetHash().String()] = e
+						}
+						for _, e := range fe.GetEntries().Slice() {
+							if o, ok := want[e.GetHash().String()]; ok && (!model_eqCids(e.GetNext(), o.GetNext()) || !model_eqCids(e.GetRefs(), o.GetRefs())) {
+								run.Violate("C18/same-key-links-differ", det("loader", "head entries decoded without the key"), histSample(h), "a same-key reader that started from head objects decoded without the key holds entry %s with next=%d refs=%d, written next=%d refs=%d", hx.Short(e.GetHash().String()), len(e.GetNext()), len(e.GetRefs()), len(o.GetNext()), len(o.GetRefs()))
+								break
+							}
+						}
+					}
+				}
+			}
 			// several same-key readers merge the SAME loaded log object at the same time (its entry objects are
 			// shared between them): every one of them must succeed
 			if loaded.Len() >= 3 && (i+r)%2 == 0 {
